@@ -23,6 +23,8 @@ func dispatch(op string, fields []string) string {
 		return opRun(fields)
 	case "parse":
 		return opParse(fields)
+	case "runbig":
+		return opRunBig(fields)
 	}
 	if f, ok := extraOps[op]; ok {
 		return f(fields)
